@@ -58,7 +58,7 @@ Example C03_figure8 :
   (* 3 voters; the new leader's log ends at index 4 (old term); both followers report 4: nothing
      commits; once its own entry 5 is on a majority, 5 (and with it 4) commits *)
   let cfg := [mkSrv 0 1 1; mkSrv 0 2 2; mkSrv 0 3 3] in
-  let s := mkNS 3 0 None ∅ 0 0 [] 2 3 0 0 4 2 0 0 cfg 1 cfg 1 0 0 false [] in
+  let s := mkNS 3 0 None ∅ 0 0 [] 2 3 0 0 4 2 0 0 cfg 1 cfg 1 0 0 false [] (0, 0) in
   map (fun ops => cm_commit (cm_run (l_cm (leader_setup s)) ops))
       [[CMatch 2 4; CMatch 3 4]; [CMatch 1 5; CMatch 2 4; CMatch 3 4]; [CMatch 1 5; CMatch 2 5]] = [0; 0; 5].
 Proof. vm_compute. reflexivity. Qed.
